@@ -96,7 +96,26 @@ func lapackRows() []*lroutine {
 				return 1
 			}
 			return 3*e.g("n") + 1
-		})))
+		})).mod("jpvt", func(a *larg) {
+		// jpvt[j] >= 0 marks a fixed (leading) column, -1 a free one: all fixed, all free,
+		// the first two fixed, every second one fixed.
+		a.inits = []func(e *lenv, i int) int{
+			func(_ *lenv, i int) int { return i },
+			func(*lenv, int) int { return -1 },
+			func(_ *lenv, i int) int {
+				if i < 2 {
+					return i
+				}
+				return -1
+			},
+			func(_ *lenv, i int) int {
+				if i%2 == 1 {
+					return i
+				}
+				return -1
+			},
+		}
+	}))
 
 	// ---- generate / apply Q ----
 	kn := func(e *lenv) bool { return e.g("k") <= e.g("n") && e.g("n") <= e.g("m") } // 0 <= k <= n <= m
